@@ -493,6 +493,82 @@ var growthContexts = []struct{ name, pre, post string }{
 	{"handler inside handler", "errordict /typecheck { nosuchname } put errordict /undefined { ", " } put 1 (a) add"},
 }
 
+// historyLimitsBody: the limits hold for an interpreter with a history.  The
+// growth shapes run after k earlier Execute calls whose programs end in ways
+// that leave the dictionary stack to be put back by something other than
+// `end` (a dictionary opened in clear text and closed inside an eexec section,
+// as every Type 1 font does; a section that leaves dictionaries open; `stop`
+// and errors below open dictionaries).
+func hexSection(plain string) string {
+	cipher := eexecref.New().Encrypt(nil, append([]byte{0, 0, 0, 0}, plain...))
+	return "currentfile eexec\n" + string(eexecref.Armour(cipher, eexecref.HexLower)) + "\n"
+}
+
+var historyPreludes = []struct{ name, prog string }{
+	{"dictionary opened in clear text, closed inside an eexec section", "3 dict begin /a 1 def " + hexSection("/b 2 def end mark currentfile closefile\n")},
+	{"two dictionaries opened in clear text, closed inside an eexec section", "1 dict begin 1 dict begin " + hexSection("end end mark currentfile closefile\n")},
+	{"dictionary opened inside an eexec section and left open", hexSection("1 dict begin /c 3 def mark currentfile closefile\n") + " cleartomark"},
+	{"section that opens and closes its own dictionary", hexSection("1 dict begin /c 3 def end mark currentfile closefile\n") + " cleartomark"},
+	{"stop below two open dictionaries, closed afterwards", "1 dict begin 1 dict begin { stop } exec"},
+	{"error below an open dictionary", "1 dict begin 1 (a) add"},
+	{"begin and end in balance", "5 { 1 dict begin } repeat 5 { end } repeat"},
+	{"end at the bottom of the dictionary stack", "end"},
+}
+
+var historyCounts = []int{1, 2, 7, 40}
+
+func historyLimitsBody(cases []growth) func(c *mc.Ctx, item int) mc.Verdict {
+	return func(c *mc.Ctx, item int) mc.Verdict {
+		gc := cases[item%len(cases)]
+		pl := historyPreludes[(item/len(cases))%len(historyPreludes)]
+		k := historyCounts[item/len(cases)/len(historyPreludes)]
+		intp := postscript.NewInterpreter()
+		intp.MaxOps = 3_000_000
+		for i := 0; i < k; i++ {
+			intp.ExecuteString(pl.prog)
+			// the caller tidies up between programs, as far as `end` lets it
+			for j := 0; j < 25; j++ {
+				if intp.ExecuteString("end") != nil {
+					break
+				}
+			}
+			intp.Stack = intp.Stack[:0]
+		}
+		c.Steps(k)
+		base := len(intp.DictStack)
+		intp.NumOps = 0
+		err := intp.ExecuteString(gc.prog)
+		c.Step()
+		name := pscmp.ErrName(err)
+		fail := func(class, detail string) mc.Verdict {
+			v := mc.Fail("C11:limits-after-a-history:"+class, fmt.Sprintf("%d x (%s), then program `%s`: %s", k, pl.name, gc.prog, detail))
+			v.Render = fmt.Sprintf("%d x %s, then %s", k, pl.name, gc.prog)
+			return v
+		}
+		if base > 2 {
+			return fail("dictionaries-left-that-end-cannot-remove", fmt.Sprintf("the dictionary stack holds %d entries after the caller executed `end` until it failed", base))
+		}
+		if len(intp.Stack) > 1100 || len(intp.DictStack) > 20 {
+			return fail("unbounded", fmt.Sprintf("operand stack %d, dictionary stack %d, ended with %q", len(intp.Stack), len(intp.DictStack), errStr(err)))
+		}
+		if err == postscript.ErrExecutionLimitExceeded {
+			return fail("limit-not-enforced", fmt.Sprintf("ran until the safety budget of 3,000,000 operations (operand stack %d, dictionary stack %d) instead of ending with one of %q", len(intp.Stack), len(intp.DictStack), gc.want))
+		}
+		// the same program on a fresh interpreter ends the same way, with the same depths
+		fresh := postscript.NewInterpreter()
+		fresh.MaxOps = 3_000_000
+		ferr := fresh.ExecuteString(gc.prog)
+		if pscmp.ErrName(ferr) != name || len(fresh.DictStack) != len(intp.DictStack) || len(fresh.Stack) != len(intp.Stack) {
+			return fail("limit-depends-on-what-ran-before", fmt.Sprintf("ended with %q, operand stack %d, dictionary stack %d; on a fresh interpreter %q, %d, %d", errStr(err), len(intp.Stack), len(intp.DictStack), errStr(ferr), len(fresh.Stack), len(fresh.DictStack)))
+		}
+		v := mc.Pass("cutoff:"+name, true)
+		if c.Render() {
+			v.Render = fmt.Sprintf("%d x %s, then %s → %s", k, pl.name, gc.prog, errStr(err))
+		}
+		return v
+	}
+}
+
 func contextGrowthBody(cases []growth) func(c *mc.Ctx, item int) mc.Verdict {
 	return func(c *mc.Ctx, item int) mc.Verdict {
 		gc := cases[item%len(cases)]
@@ -973,6 +1049,11 @@ func main() {
 					Name: "runaway-growth-in-contexts", Items: len(coreGrowth) * len(growthContexts), Body: contextGrowthBody(coreGrowth), Budget: budget,
 					Rule:     fmt.Sprintf("the %d hand-written growth shapes (operand stack, dictionary stack, recursion through names/procedures/aliases/handlers, oversized requests) x %d contexts (inside a user-installed handler for typecheck / undefined / stackunderflow / rangecheck, a handler installed with begin/def, a handler entered from another handler, a forall body, a named procedure, a bound procedure, an extra open dictionary), run with a safety budget of 3,000,000 operations: the run must end before the budget does, with operand stack <= 1100 and dictionary stack <= 20; non-trivial = all", len(coreGrowth), len(growthContexts)),
 					CrashKey: func(i int) string { return "C11:crash:growth-in-context:" + coreGrowth[i%len(coreGrowth)].prog },
+				},
+				{
+					Name: "limits-after-a-history", Items: len(coreGrowth) * len(historyPreludes) * len(historyCounts), Body: historyLimitsBody(coreGrowth), Budget: budget,
+					Rule:     fmt.Sprintf("the %d hand-written growth shapes on an interpreter that has run one of %d preludes k times, k in %v (a dictionary opened in clear text and closed inside an eexec section, as in every Type 1 font; two of them; a section that leaves a dictionary open; a section with its own dictionary; `stop` and an error below open dictionaries; begin / end in balance; `end` at the bottom), the caller executing `end` until it fails and clearing the operand stack after each: afterwards the dictionary stack is back at its two permanent entries, the growth shape ends before the safety budget with operand stack <= 1100 and dictionary stack <= 20, and it ends with the same error and the same depths as on a fresh interpreter; non-trivial = all", len(coreGrowth), len(historyPreludes), historyCounts),
+					CrashKey: func(i int) string { return "C11:crash:limits-after-a-history:" + coreGrowth[i%len(coreGrowth)].prog },
 				},
 				{
 					Name: "runaway-growth-unbudgeted", Items: len(gc), Body: growthBody(gc), Budget: budget,
